@@ -25,3 +25,4 @@ INVARIANT Aligned
 INVARIANT Owned
 INVARIANT ArrShared
 INVARIANT TlValid
+INVARIANT FilesWellFormed
